@@ -84,6 +84,10 @@ func (m *runtimeContextManager) CheckRequiredFlags(flags ComplianceFlags) error 
 }
 
 func (m *runtimeContextManager) Parent() RuntimeContext {
+	if m.parent == nil {
+		// Do not wrap a nil pointer in a (non-nil) interface value.
+		return nil
+	}
 	return m.parent
 }
 
